@@ -38,9 +38,9 @@ for pid in sorted(os.listdir(src)):
             "needs_to_manifest": meta.get("needs"),
             "demo": {"file": "seeded_demo_test.go.txt", "place_at": demo_path, "cmd": meta.get("demo_cmd")},
             "agent_verified": meta.get("verified"),
-            "confirmed_by_me": {"in": "scratch worktree /tmp/wt/%s at /repo HEAD %s" % (pid, conf.get("head")),
+            "confirmed_by_me": {"in": "scratch worktree of /repo at HEAD %s" % (conf.get("head")),
                                 "ran": "git apply --check; go build ./...; go test -vet=off -count=1 <changed packages + dependants> (one retry for the load-sensitive TBF/BatchIO tests); demo test with and without the change" + (" (with -race)" if pid == "C19" else ""),
-                                **{x: conf.get(x) for x in need}},
+                                **{x: conf.get(x) for x in need}, **({"note": conf["note"]} if conf.get("note") else {})},
         }
         json.dump(m, open(os.path.join(dst, "meta.json"), "w"), indent=1)
         n += 1
